@@ -28,6 +28,11 @@ func vrfSchedule(typ string, args []string, forced ...bool) {
 	for _, op := range ops {
 		if op.RegionID() == w.region.GetID() {
 			v.Reach("operator")
+			if v.Param("showsteps", 0) == 1 {
+				for i := 0; i < op.Len(); i++ {
+					v.Observe("step", op.Step(i).String())
+				}
+			}
 			c11Apply(w, op)
 		}
 	}
